@@ -236,3 +236,9 @@ add("vec_step", ["C01", "C09"], ["tu/vector_step.c"], "h_vector_step", unwind=8,
 add("wr_add_step_k8", ["C08", "C10", "C09", "C01", "C02", "C12", "C20"], ["tu/writer_step.c", "$REPO/mtbl/varint.c"], "h_writer_add_step",
     unwind=20, defines=["VG_KMAX=8"], strength="B: one mtbl_writer_add from an arbitrary writer state (all histories); key length <= 8", timeout=3000, slice=3, tier="thorough",
     functions=WR_STEP_FUNCS, assumptions=WR_STEP_ASSUME, replay="c08")
+add("wr_add_dfcc", ["C08", "C10", "C09"], ["tu/writer_add_dfcc.c"], "h_writer_add_dfcc", mode="dfcc", enforce="mtbl_writer_add/mtbl_writer_add__spec",
+    replace=["bytes_compare/bytes_compare__cap", "block_builder_current_size_estimate/block_builder_current_size_estimate__cap", "bytes_shortest_separator/bytes_shortest_separator__cap",
+             "_mtbl_writer_flush/_mtbl_writer_flush__cap", "ubuf_reset/ubuf_reset__cap", "ubuf_append/ubuf_append__cap", "block_builder_add/block_builder_add__cap"],
+    unwind=40, timeout=600, strength="U", functions=["mtbl_writer_add"], slice=1,
+    assumptions=["callees replaced by capture contracts: bytes_compare (own proof: group bytes_compare), size estimate, separator, flush, ubuf_reset/append, block_builder_add (checked in wr_add_step / bb_* / vec_step)",
+                 "keys and values of any length below 2^60; counters below 2^62 (no wrap)"])
